@@ -283,6 +283,7 @@ def campaign_c05(seed, tier):
     for i in range(16 if tier == "quick" else 300):
         scs.append(sc_history("c05-hist-%d" % i, rng.randrange(1 << 30), n=60, wild=0.0 if i % 2 else 0.2))
     scs.append(sc_onebyte_mapper("c05-onebyte"))
+    scs.append(sc_twobyte("c05-twobyte"))
     return scs
 
 
@@ -444,6 +445,32 @@ def sc_c07_drain(name, seed, mtu, k, dups, foreign, bridged=False, interleave=Tr
     return Scenario(name, s.lines, {"k": k, "mtu": mtu})
 
 
+def sc_c07_redrain(name, seed, mtu):
+    """partial drains interleaved with traffic: after a QueryResp that reports only part of the record, probes
+    that were just reported arrive again (new observations), others arrive for the first time, then the drain
+    continues"""
+    rng = random.Random(seed)
+    s = new_script(mtu=mtu)
+    s.rx(1, discover(0, M1, gen=5, seq=1))
+    cap = (mtu - 34) // 20
+    k = cap + rng.choice([1, 2, cap // 2])
+    sent = []
+    for i in range(k):
+        rs = bytes([0x02, 0x61, (seed >> 8) & 0xFF, seed & 0xFF, i >> 8, i & 0xFF])
+        f = probe(rs, OWN, rs, OWN, train=i & 1)
+        sent.append(f)
+        s.rx(1, f)
+    s.rx(1, query(M1, OWN, seq=50))                 # reports a full frame, leaves the rest queued
+    s.rx(1, sent[-1])                               # the newest (just reported) again
+    s.rx(1, sent[rng.randrange(len(sent))])         # some other one again
+    s.rx(1, sent[0])                                # the oldest (possibly still queued) again
+    s.rx(1, probe(X, OWN, X, OWN))
+    s.drain(1, query(M1, OWN, seq=51), 6)
+    s.rx(1, sent[-1])
+    s.rx(1, query(M1, OWN, seq=60))
+    return Scenario(name, s.lines)
+
+
 def sc_c07_misc(name, seed, mtu):
     """key collisions, Reset discarding the record, observations while no mapper is active"""
     rng = random.Random(seed)
@@ -489,6 +516,9 @@ def campaign_c07(seed, tier):
         if mtu in MTUS:
             scs.append(sc_c07_misc("c07-misc-%d" % mtu, rng.randrange(1 << 16), mtu))
             scs.append(sc_onebyte_obs("c07-onebyte-%d" % mtu, mtu))
+            scs.append(sc_twobyte("c07-twobyte-%d" % mtu, mtu))
+            for r in range(2):
+                scs.append(sc_c07_redrain("c07-redrain-%d-%d" % (mtu, r), rng.randrange(1 << 16), mtu))
     for i in range(8 if tier == "quick" else 200):
         scs.append(sc_history("c07-hist-%d" % i, rng.randrange(1 << 30), n=60, wild=0.05, mtu=any_mtu(rng)))
     return scs
@@ -991,6 +1021,30 @@ def flip(addr, i):
     b = bytearray(addr)
     b[i] ^= 0x40
     return bytes(b)
+
+
+def flip2(addr, i, j, mask=0x40):
+    b = bytearray(addr)
+    b[i] ^= mask
+    b[j] ^= mask
+    return bytes(b)
+
+
+def sc_twobyte(name, mtu=1500):
+    """look-alike addresses whose differences cancel under XOR / a byte sum are still other stations"""
+    s = new_script(mtu=mtu)
+    pairs = [(i, j) for i in range(6) for j in range(i + 1, 6)]
+    for (i, j) in pairs[:8]:
+        other = flip2(M1, i, j)
+        s.rx(1, reset(M1))
+        s.rx(1, discover(0, M1, gen=1, seq=1))
+        s.rx(1, discover(0, other, gen=2, seq=2))                 # another station: unanswered
+        s.rx(1, probe(X, OWN, X, flip2(OWN, i, j)))              # for another station: not recorded
+        s.rx(1, probe(X, OWN, PEER, OWN))
+        s.rx(1, probe(flip2(X, i, j), OWN, PEER, OWN))           # a distinct observation
+        s.rx(1, probe(X, OWN, flip2(PEER, i, j), OWN))           # a distinct observation
+        s.drain(1, query(M1, OWN, seq=3), 3)
+    return Scenario(name, s.lines)
 
 
 def sc_onebyte_mapper(name):
